@@ -267,6 +267,22 @@ class Snapshot:
             idx = self.par[idx]
         return False
 
+    def restore_slot(self, slot):
+        """Put back one slot (used to stop a stale change from being re-reported at every later step)."""
+        _, n, saved, key, lists = self.entries[slot.holder]
+        if slot.field == "__class__":
+            return
+        j = key.index(slot.field)
+        if lists[j] is not None:
+            lst = lists[j]
+            if slot.pos is None:
+                lst[:] = saved[j]
+            elif slot.pos < len(lst):
+                lst[slot.pos] = slot.old
+            setattr(n, slot.field, lst)
+        else:
+            setattr(n, slot.field, saved[j])
+
     def restore(self):
         for i in self.dirty():
             _, n, saved, key, lists = self.entries[i]
@@ -476,7 +492,7 @@ class Checker:
         return False, slots
 
     # -- one yielded mutant ----------------------------------------------------
-    def at_yield(self, cfg, step, muts, mutant, prev_roots):
+    def at_yield(self, cfg, step, muts, mutant, prev_roots, prev_op="-"):
         """Check the mutant just yielded; returns (key, roots) for later checks."""
         subj, snap, col = self.subj, self.subj.snap, self.col
         col.count("evaluations")
@@ -513,15 +529,19 @@ class Checker:
                          f"fast/reference confinement disagree at step {step} of {cfg}: {d!r} vs "
                          f"{[(s.holder, s.field, s.pos) for s in outside]}")
         if outside:
-            stale = all(snap.within(snap.anchor_index(s), prev_roots) for s in outside)
-            sig = "original-mutated-after-yield" if stale and prev_roots else "diff-outside-reported-node"
+            stale = bool(prev_roots) and all(snap.within(snap.anchor_index(s), prev_roots) for s in outside)
+            sig = "original-mutated-after-yield" if stale else "diff-outside-reported-node"
             s = outside[0]
             node = snap.nodes[s.holder]
-            self.violation(cfg, opname, sig,
-                           f"step {step} ({'+'.join(ops)}): tree differs from the original outside the "
-                           f"reported node(s): {type(node).__name__}.{s.field}"
+            self.violation(cfg, prev_op if stale else opname, sig,
+                           f"step {step} ({'+'.join(ops)}; previous: {prev_op}): tree differs from the original "
+                           f"outside the reported node(s): {type(node).__name__}.{s.field}"
                            f"{'' if s.pos is None else '[%d]' % s.pos} at line {getattr(node, 'lineno', '?')}",
                            extra)
+            # put the stray slots back so that the same damage is not re-reported at every later step
+            for s in outside:
+                snap.restore_slot(s)
+            slots = [s for s in slots if s not in outside]
         changed = [s for s in slots if not s.is_attr and _dump_any(s.new) != _dump_any(s.old)]
         if not changed:
             if subj.reference:
@@ -567,7 +587,7 @@ class Checker:
                         col.count("ctrl_modules_created" if module is not None else "ctrl_invalid_modules")
                     else:
                         muts, mutant = item
-                    key, prev_roots = self.at_yield(cfg, step, muts, mutant, prev_roots)
+                    key, prev_roots = self.at_yield(cfg, step, muts, mutant, prev_roots, last_op)
                     keys.append(key)
                     last_op = muts[0].operator.__name__ if muts else "-"
                     names.append(last_op)
@@ -577,7 +597,12 @@ class Checker:
                 self.violation(cfg, last_op, f"enumeration-raises:{type(exc).__name__}",
                                f"step {step + 1}: {exc!r}", {"step": step + 1, "leg": "enumerate"})
                 gen = None
-                subj.snap.restore()
+                ok, slots = self.pristine()
+                if not ok:
+                    self.violation(cfg, last_op, "original-mutated-after-yield",
+                                   f"step {step + 1} raised and the original is left mutated at "
+                                   f"{self._slot_text(slots)}", {"step": step + 1, "leg": "enumerate"})
+                    subj.snap.restore()
                 return keys
             self.last_names = names
             col.count("evaluations")
@@ -1034,7 +1059,8 @@ def run(ctx):
     P.load()
     want = {o.__name__ for o in P.prod_ops + P.extra_ops}
     fired = sets.get("operators_fired", set())
-    ctx.require(want <= fired, f"vacuous: operators never fired: {sorted(want - fired)}")
+    crashed = any("|enumeration-raises:" in fp for fp in ctx.col.violations)
+    ctx.require(want <= fired or crashed, f"vacuous: operators never fired: {sorted(want - fired)}")
     totals = {k.split(":", 1)[1]: ctx.col.notes.pop(k) for k in sorted(ctx.col.notes) if k.startswith("total:")}
     ctx.require(sorted(totals) == sorted(cm.STDLIB), "not every stdlib module was enumerated")
     ctx.require(c.get("modules", 0) == len(plan) + len(totals), "not every planned module was run")
